@@ -748,6 +748,7 @@ func checkC02(c *Ctx) {
 	runWHEmpty(c, "WH-empty")
 	runWHChild(c, "WH-child")
 	runWHGroups(c, "WH-groups")
+	runWHReset(c, "WH-reset")
 	// schema inputs over the corpus
 	res, desc, exhaustive := runCorpusFor(c, false)
 	if res != nil {
